@@ -128,6 +128,11 @@ def replay_schedule(path, threads, ops):
     return r.returncode, r.stdout.strip()
 
 
+# Number of lazily initialised statics of decaf377 that the scenario's operations reach on the pinned tree
+# (ONE, TWO, M, M_MINUS_ONE_DIV_TWO, ZETA_TO_ONE_MINUS_M_DIV_TWO, G, SQRT_LOOKUP_TABLES; `R` is only read by a debug assertion).
+# If fewer go through the stand-in, part of the shared state has moved outside what shuttle controls.
+EXPECTED_CELLS = 7
+
 MIRI_FLAGS = "-Zmiri-preemption-rate=0.05 -Zmiri-disable-stacked-borrows -Zmiri-disable-validation"
 
 
@@ -235,7 +240,7 @@ def main():
     if tier == "quick":
         nchild, iters, miri_n = 32, 600, 0
     else:
-        nchild, iters, miri_n = 256, 8000, 64
+        nchild, iters, miri_n = 256, 6000, 64
     if miri_seeds_override is not None:
         miri_n = miri_seeds_override
     s = seed ^ 0xC09
@@ -257,6 +262,12 @@ def main():
         print("note: %d of %d shuttle children made no progress within %.0f s (uncontrolled busy-waiting in the code under test); "
               "deciding this tree with the Miri half instead" % (len(hung), len(results), child_timeout))
         results = [r for r in results if r[3] != "hung"]
+        if miri_n == 0:
+            miri_n = 4
+    cells_seen = max([r[2].get("distinct_cells", 0) for r in results if r[2]] or [0])
+    if results and cells_seen < EXPECTED_CELLS:
+        print("note: only %d lazily initialised cells went through the simulated once_cell (expected %d): some shared state is "
+              "initialised by a mechanism shuttle does not control; additionally deciding this tree with the Miri half" % (cells_seen, EXPECTED_CELLS))
         if miri_n == 0:
             miri_n = 4
     executions = steps = ops = contended = entries = overlap = 0
@@ -353,6 +364,7 @@ def main():
             "miri": [dict(seed=r["seed"], rc=r["rc"], wall_s=round(r["wall_s"], 1)) for r in miri_runs],
             "missing_probes": missing,
             "shuttle_children_without_progress": len(hung),
+            "lazy_cells_seen_by_stand_in": cells_seen,
             "simulated_time_note": "no clock in the crate; simulated time is the number of scheduling decisions (sim_steps)",
             "known_findings_seen": [],
         },
